@@ -9,7 +9,9 @@ B="$VERIF/build/$FL"; S="$VERIF/sim"; OUT="$VERIF/build/world_$FL"
 WRAP="-Wl,--wrap=malloc,--wrap=calloc,--wrap=realloc,--wrap=free,--wrap=aligned_alloc,--wrap=posix_memalign,--wrap=memalign,--wrap=malloc_usable_size"
 case "$FL" in
   tsan)  CXX=clang++-14; CC=clang-14; N=1; SAN="-fsanitize=thread"
-         WRAP="$WRAP,--wrap=pthread_mutex_lock,--wrap=pthread_spin_lock,--wrap=pthread_rwlock_rdlock,--wrap=pthread_rwlock_wrlock,--wrap=pthread_once";;
+         WRAP="$WRAP,--wrap=pthread_mutex_lock,--wrap=pthread_spin_lock,--wrap=pthread_rwlock_rdlock,--wrap=pthread_rwlock_wrlock,--wrap=pthread_once"
+         for b in 8 16 32 64; do for o in load store exchange fetch_add fetch_sub fetch_and fetch_or fetch_xor fetch_nand compare_exchange_strong compare_exchange_weak; do
+           WRAP="$WRAP,--wrap=__tsan_atomic${b}_${o}"; done; done;;
   asan)  CXX=clang++-14; CC=clang-14; N=2; SAN="-fsanitize=address";;
   plain) CXX=g++; CC=gcc; N=0; SAN="";;
 esac
